@@ -454,6 +454,11 @@ unsafe fn dispose_general_node<T: RcObject>(
             let next_ref = next_ptr.deref();
             let link_epoch = next_ptr.high_tag() as u32;
 
+            // Disposing an earlier child may have re-pinned this thread many times, so the epoch
+            // read at the top of this frame can be arbitrarily stale by now. Stamps must be
+            // compared in a window around the current epoch, or a fresh one wraps to "oldest".
+            let modu: Modular<EPOCH_WIDTH> = Modular::new(global_epoch() as isize + 1);
+
             // Decrement next node's strong count and update its epoch.
             let next_cnt = loop {
                 vp!(CASC_LOAD);
